@@ -13,21 +13,89 @@ import (
 
 func init() { register("C12", checkC12) }
 
-// successReturns: returns whose error result is the nil constant and whose first result is not nil.
-func successReturns(fn *ssa.Function) []*ssa.Return {
+// succPoint is a point of a function at which it is about to return success: a return whose error
+// result is the nil constant, or - in a single-exit function that returns merged variables - the
+// end of a predecessor block over which the nil error and a non-nil first result arrive.
+type succPoint struct {
+	at  ssa.Instruction
+	rec ssa.Value
+}
+
+// successReturns: the success points of fn (first result not nil, error result nil).
+func successReturns(fn *ssa.Function) []succPoint {
 	ei := errIndex(fn.Signature)
-	var out []*ssa.Return
+	var out []succPoint
 	core.AllInstrs(fn, func(in ssa.Instruction) {
 		ret, ok := in.(*ssa.Return)
-		if !ok || ei < 0 || !core.IsNil(ret.Results[ei]) {
+		if !ok || ei < 0 {
 			return
 		}
-		if core.IsNil(ret.Results[0]) {
+		errV, recV := ret.Results[ei], ret.Results[0]
+		if core.IsNil(errV) {
+			if !core.IsNil(recV) {
+				out = append(out, succPoint{ret, recV})
+			}
 			return
 		}
-		out = append(out, ret)
+		// single exit: `return rec, nil, err` with err (and rec) merged from several assignments
+		ephi, ok := errV.(*ssa.Phi)
+		if !ok || ephi.Block() != ret.Block() {
+			return
+		}
+		for i, e := range ephi.Edges {
+			if !core.IsNil(e) {
+				continue
+			}
+			pred := ephi.Block().Preds[i]
+			rv := recV
+			if rphi, ok := recV.(*ssa.Phi); ok && rphi.Block() == ret.Block() {
+				rv = rphi.Edges[i]
+			}
+			if core.IsNil(rv) || len(pred.Succs) != 1 || len(pred.Instrs) == 0 {
+				continue
+			}
+			out = append(out, succPoint{pred.Instrs[len(pred.Instrs)-1], rv})
+		}
 	})
 	return out
+}
+
+// constBoolResult: v is a result of a static call of a module function (or function literal) all of
+// whose returns yield the same boolean constant there.
+func constBoolResult(v ssa.Value) (known, val bool) {
+	v = core.Strip(v)
+	idx := 0
+	if ex, ok := v.(*ssa.Extract); ok {
+		v, idx = ex.Tuple, ex.Index
+	}
+	call, ok := v.(*ssa.Call)
+	if !ok {
+		return false, false
+	}
+	g := call.Call.StaticCallee()
+	if g == nil || len(g.Blocks) == 0 || !core.InModule(g) {
+		return false, false
+	}
+	n := 0
+	good := true
+	core.AllInstrs(g, func(in ssa.Instruction) {
+		ret, ok := in.(*ssa.Return)
+		if !ok || idx >= len(ret.Results) {
+			return
+		}
+		k, isK := ret.Results[idx].(*ssa.Const)
+		if !isK || k.Value == nil || k.Value.Kind() != constant.Bool {
+			good = false
+			return
+		}
+		b := constant.BoolVal(k.Value)
+		if n > 0 && b != val {
+			good = false
+		}
+		val = b
+		n++
+	})
+	return good && n > 0, val
 }
 
 func isLenOf(p core.VPred) core.VPred {
@@ -94,7 +162,8 @@ func (c *Ctx) checkTokenAuth() {
 			sigSlice = sl
 		}
 	})
-	for _, ret := range succ {
+	for _, sp := range succ {
+		ret := sp.at
 		base := fk(fn) + ": success return"
 		// a. length
 		gLen := core.Guard{Name: "len(token)>=bound", Match: func(a core.CondAtom) (bool, bool) {
@@ -153,7 +222,7 @@ func (c *Ctx) checkTokenAuth() {
 		ok, cnt = core.GuardedBy(fn, ret, gExp)
 		r.Check(ok && cnt[0] > 0, "C12.1-token-gates", base+" / not expired", c.pos(ret), "", "an expired token is accepted (the expiry is not compared as a time, e.g. unsigned arithmetic wraps)")
 		// g. record fields from the layout
-		if a, ok := core.Strip(ret.Results[0]).(*ssa.Alloc); ok {
+		if a, ok := core.Strip(sp.rec).(*ssa.Alloc); ok {
 			fields := literalFields(a)
 			fromLayout := func(v ssa.Value) bool {
 				return derivesThroughCalls(v, func(x ssa.Value) bool {
@@ -194,6 +263,8 @@ func (c *Ctx) checkAPIKeyRule() {
 		if ret, ok := in.(*ssa.Return); ok {
 			if k, ok := core.Strip(ret.Results[0]).(*ssa.Const); ok && k.Value != nil && k.Value.Kind() == constant.Bool && constant.BoolVal(k.Value) {
 				rets = append(rets, ret)
+			} else if known, val := constBoolResult(ret.Results[0]); known && !val {
+				// `return reject(..)`: a helper / function literal that always yields false
 			} else if _, isConst := core.Strip(ret.Results[0]).(*ssa.Const); !isConst {
 				rets = append(rets, ret) // phi: may be true
 			}
@@ -253,7 +324,25 @@ func (c *Ctx) checkCodeAuth() {
 		return ok && ex.Index == 0 && calleeFullName(ex.Tuple) == "strconv.Atoi"
 	}
 	// also when the stored value is decoded by an extracted parser returning the counter
-	isCount := func(v ssa.Value) bool { return isAtoi(v) || core.Derives(core.Strip(v), isAtoi, true) }
+	isCount := func(v ssa.Value) bool {
+		if isAtoi(v) || core.Derives(core.Strip(v), isAtoi, true) {
+			return true
+		}
+		// the counter field of a record parsed by a helper: every value it can hold is the Atoi result
+		if call, ri, path, ok := core.ResultComponent(core.Strip(v)); ok && len(path) == 1 {
+			vals, _, okv := core.ReturnedFieldValues(call.Call.StaticCallee(), ri, path[0])
+			if !okv || len(vals) == 0 {
+				return false
+			}
+			for _, fv := range vals {
+				if !(isAtoi(fv) || core.Derives(core.Strip(fv), isAtoi, true)) {
+					return false
+				}
+			}
+			return true
+		}
+		return false
+	}
 	gCount := core.LessGuard("count<maxRetries", isCount, core.IsFieldLoad(maxRetries), true)
 	// code equality: comparison of two strings where one derives from the secret parameter
 	secretP := fn.Params[1]
@@ -283,14 +372,15 @@ func (c *Ctx) checkCodeAuth() {
 		}
 		return false, false
 	}}
-	for _, ret := range succ {
+	for _, sp := range succ {
+		ret := sp.at
 		base := fk(fn) + ": success return"
 		ok, cnt := core.GuardedBy(fn, ret, gCount)
 		r.Check(ok && cnt[0] > 0, "C12.3-reset-code", base+" / attempts below the limit", c.pos(ret), "", "a reset code is accepted although the number of wrong guesses reached the limit")
 		ok, cnt = core.GuardedBy(fn, ret, gCode)
 		r.Check(ok && cnt[0] > 0, "C12.3-reset-code", base+" / code equality", c.pos(ret), "", "a reset code is accepted without comparing it with the stored one")
 		// delete before success
-		miss, _ := core.PathAvoiding(fn, nil, func(in ssa.Instruction) bool { return in == ssa.Instruction(ret) }, core.IsCallInstrTo(pcDelete), nil)
+		miss, _ := core.PathAvoiding(fn, nil, func(in ssa.Instruction) bool { return in == ret }, core.IsCallInstrTo(pcDelete), nil)
 		r.Check(!miss, "C12.3-reset-code", base+" / entry deleted (single use)", c.pos(ret), "", "a reset code can be accepted without being deleted: it can be used again")
 	}
 	// wrong guess: from the mismatch edge every path to return passes Upsert(count+1, false)
@@ -326,16 +416,71 @@ func derivesAny(v ssa.Value, p core.VPred) bool {
 			return false
 		}
 		seen[x] = true
+		if w, ok := core.ParamSubst[x]; ok && w != x {
+			return walk(w, d+1)
+		}
 		if p(x) {
 			return true
 		}
-		if w, ok := core.ParamSubst[x]; ok && w != x {
-			return walk(w, d+1)
+		// a field of a record returned by a helper (`entry := parse(value)`, `entry.code`): the values
+		// that field holds at the helper's returns, or - when they cannot be told - the call itself
+		if call, ri, path, ok := core.ResultComponent(x); ok && len(path) > 0 {
+			if vals, _, okv := core.ReturnedFieldValues(call.Call.StaticCallee(), ri, path[0]); okv && len(path) == 1 {
+				saved := core.ParamSubst
+				ns := map[ssa.Value]ssa.Value{}
+				for k, v := range saved {
+					ns[k] = v
+				}
+				callee := call.Call.StaticCallee()
+				for i, pp := range callee.Params {
+					if i < len(call.Call.Args) {
+						ns[pp] = call.Call.Args[i]
+					}
+				}
+				core.ParamSubst = ns
+				hit := false
+				for _, fv := range vals {
+					if walk(fv, d+1) {
+						hit = true
+						break
+					}
+				}
+				core.ParamSubst = saved
+				return hit
+			}
 		}
 		switch y := x.(type) {
 		case *ssa.Call:
 			for _, a := range core.CallArgs(&y.Call) {
 				if walk(a, d+1) {
+					return true
+				}
+			}
+			// what a module helper / method computes from its arguments
+			if g := y.Call.StaticCallee(); g != nil && core.InModule(g) && len(g.Blocks) > 0 && d < 6 {
+				saved := core.ParamSubst
+				ns := map[ssa.Value]ssa.Value{}
+				for k, v := range saved {
+					ns[k] = v
+				}
+				for i, pp := range g.Params {
+					if i < len(y.Call.Args) {
+						ns[pp] = y.Call.Args[i]
+					}
+				}
+				core.ParamSubst = ns
+				hit := false
+				core.AllInstrs(g, func(in ssa.Instruction) {
+					if ret, ok := in.(*ssa.Return); ok && !hit {
+						for _, rv := range ret.Results {
+							if walk(rv, d+2) {
+								hit = true
+							}
+						}
+					}
+				})
+				core.ParamSubst = saved
+				if hit {
 					return true
 				}
 			}
@@ -380,7 +525,8 @@ func (c *Ctx) checkBasicAuth() {
 		r.Fail("C12.4-password", fk(fn)+": success return", "-", "no success return: undecided")
 		return
 	}
-	for _, ret := range succ {
+	for _, sp := range succ {
+		ret := sp.at
 		base := fk(fn) + ": success return"
 		ok, cnt := core.GuardedBy(fn, ret, core.BoolGuard("!uid.IsZero()", core.IsCallTo(isZero), false))
 		r.Check(ok && cnt[0] > 0, "C12.4-password", base+" / login exists", c.pos(ret), "", "an unknown login can authenticate")
@@ -398,10 +544,25 @@ func (c *Ctx) checkBasicAuth() {
 		ok, cnt = core.GuardedBy(fn, ret, gBcrypt)
 		r.Check(ok && cnt[0] > 0, "C12.4-password", base+" / password hash matches", c.pos(ret), "", "a wrong password can authenticate")
 		gExp := core.Guard{Name: "!expires.Before(now)", Match: func(a core.CondAtom) (bool, bool) {
-			if a.Op == token.ILLEGAL && calleeFullName(a.Val) == "(time.Time).Before" {
-				return true, false
+			if a.Op != token.ILLEGAL {
+				return false, false
 			}
-			return false, false
+			name := calleeFullName(a.Val)
+			if name != "(time.Time).Before" && name != "(time.Time).After" {
+				return false, false
+			}
+			// which operand is the current time: expires.Before(now) / now.After(expires) mean expired,
+			// now.Before(expires) / expires.After(now) mean still valid
+			call := core.Strip(a.Val).(*ssa.Call)
+			isNow := func(v ssa.Value) bool {
+				return derivesAny(v, func(x ssa.Value) bool { return calleeFullName(x) == "time.Now" })
+			}
+			recvNow, argNow := isNow(call.Call.Args[0]), isNow(call.Call.Args[1])
+			if recvNow == argNow {
+				return false, false
+			}
+			expiredWhenTrue := (name == "(time.Time).Before" && argNow) || (name == "(time.Time).After" && recvNow)
+			return true, !expiredWhenTrue
 		}}
 		gNoExp := core.Guard{Name: "expires.IsZero()", Match: func(a core.CondAtom) (bool, bool) {
 			if a.Op == token.ILLEGAL && calleeFullName(a.Val) == "(time.Time).IsZero" {
